@@ -23,6 +23,7 @@ type deferred struct {
 
 // State is one disjunct of the abstract state at a program point.
 type State struct {
+	Log []*WriteRec // writes into byte buffers along this path (encoder layout extraction)
 	Cons   *ConSet
 	Heap   map[Loc]Term
 	Env    map[ssa.Value]Term
@@ -37,6 +38,17 @@ type State struct {
 	// Dyn records, per unknown interface value, the dynamic type assumed on this path
 	// (nil = an implementation outside the repository).
 	Dyn map[int]types.Type
+}
+
+// WriteRec records one write into a byte buffer (kept per path in State.Log when Analyzer.LogWrites is set).
+type WriteRec struct {
+	Base  *Base
+	Off   Lin
+	Width int64 // bytes; 0: copy of Src (length N)
+	LE    bool
+	Val   Term   // integer value written (Width > 0)
+	Src   *Slice // copied bytes (Width == 0)
+	N     Lin
 }
 
 func NewState() *State {
@@ -55,6 +67,7 @@ func (s *State) Clone() *State {
 		n.Ver[k] = v
 	}
 	n.Defers = append([]*deferred(nil), s.Defers...)
+	n.Log = append([]*WriteRec(nil), s.Log...)
 	n.Trace = append([]string(nil), s.Trace...)
 	n.gcMark = s.gcMark
 	if s.BoolFacts != nil {
